@@ -194,6 +194,7 @@ func c05Concurrent(kind string, traj []int, holders int) *mc.Scenario {
 			lim := &ScriptLimit{Traj: traj}
 			strat := newStrategy(kind, 9, reg)
 			l, err := limiter.NewDefaultLimiter(lim, 1000, 1000, 1, 10, strat, limit.NoopLimitLogger{}, reg)
+			_ = strat
 			if err != nil {
 				panic(err)
 			}
@@ -216,9 +217,20 @@ func c05Concurrent(kind string, traj []int, holders int) *mc.Scenario {
 				toks = append(toks, tok)
 			}
 			var ths []*vrt.Thread
-			for i, tok := range toks {
-				i, tok := i, tok
-				ths = append(ths, vrt.GoL(fmt.Sprintf("H%d", i), func() { complete(tok, []int{0, 2, 0}[i%3]) }))
+			if holders >= 12 {
+				// two updates that can overlap: H0's completion closes the pre-filled window, H1 completes
+				// the other eleven in a row and thereby fills and closes the next one
+				ths = append(ths, vrt.GoL("H0", func() { complete(toks[0], 0) }))
+				ths = append(ths, vrt.GoL("H1", func() {
+					for _, tok := range toks[1:] {
+						tok.OnSuccess()
+					}
+				}))
+			} else {
+				for i, tok := range toks {
+					i, tok := i, tok
+					ths = append(ths, vrt.GoL(fmt.Sprintf("H%d", i), func() { complete(tok, []int{0, 2, 0}[i%3]) }))
+				}
 			}
 			vrt.Join(ths...)
 			if s, m := c05Check(kind, strat, reg, lim.EstimatedLimit(), "after all holders completed"); s != "" {
@@ -305,5 +317,7 @@ func runC05(c *Ctx) {
 			c.Explore(c05Concurrent(kind, tr, 2), mc.Options{PreemptBound: pb, NoCache: true})
 			c.Explore(c05Concurrent(kind, tr, 3), mc.Options{PreemptBound: c.Pick(2, 3)})
 		}
+		// two window updates in flight at once (the strategy starts at 12 so that 12 tokens can be held)
+		c.Explore(c05Concurrent(kind, []int{12, 5, 9}, 12), mc.Options{PreemptBound: c.Pick(1, 2)})
 	}
 }
